@@ -509,6 +509,45 @@ fn run_layout(e: &Entry, pd: &PrimDom, prop: Prop, tier: Tier) -> JobOut {
     JobOut { rep, dig, returned }
 }
 
+/// layouts that receive all 2^32 f32 patterns in the thorough tier (whichever of them this binary compiles)
+const F32_SWEEP: [&str; 13] = ["I8F0", "U8F0", "I4F4", "U0F8", "I0F8", "I16F16", "U16F16", "I9F23", "I32F32", "U64F64", "I64F64", "U0F128", "I2F126"];
+
+fn f32_sweep(e: &Entry, part: u32) -> JobOut {
+    let l = e.l;
+    let mut rep = Report::new(crate::NAME, "", "thorough");
+    let nops = KINDS.len() * 16;
+    let mut tally = Tally::new(nops);
+    let lo = (part as u64) << 24;
+    for bits in lo..lo + (1u64 << 24) {
+        let b = bits as u128;
+        rep.states += 1;
+        rep.nontrivial_states += 1;
+        for kind in [1usize, 2, 4] {
+            let got = call(e, kind, 13, 0, b);
+            rep.transitions += 1;
+            tally.counts[kind * 16 + 13][got.class()] += 1;
+            let Some(exp) = expect(l, kind, 13, 0, b, &got) else { continue };
+            rep.judged += 1;
+            tally.judged[kind * 16 + 13] += 1;
+            if got != exp {
+                rep.violation(Violation {
+                    key: format!("{} {}<f32>", l.class(), KINDS[kind]),
+                    diff: format!("float:{}", diff_class(&got, &exp)),
+                    case: case(l, kind, 13, 0, b),
+                    observed: got.to_string(),
+                    expected: exp.to_string(),
+                    note: describe(l, kind, 13, 0, b),
+                    kf: None,
+                });
+            }
+        }
+    }
+    let names: Vec<String> = (0..nops).map(|i| format!("{}<{}>", KINDS[i / 16], PRIMS.get(i % 16).unwrap_or(&"-"))).collect();
+    let names_ref: Vec<&str> = names.iter().map(|s| s.as_str()).collect();
+    rep.add_tally(&l.class(), &names_ref, &tally);
+    JobOut { rep, dig: vec![], returned: vec![] }
+}
+
 fn describe(l: Layout, kind: usize, prim: usize, a: u128, b: u128) -> String {
     let mut s = String::new();
     if kind >= 5 && kind != 12 && kind != 13 {
@@ -542,8 +581,18 @@ fn cmd_run(args: &Args) {
     let t0 = std::time::Instant::now();
     let tab: Vec<Entry> = table().into_iter().filter(|e| only.as_ref().map_or(true, |o| *o == e.l.name() || *o == e.l.family())).collect();
     let pd = prim_domain(tier);
-    let results = run_jobs(&tab, |e| run_layout(e, &pd, prop, tier));
+    let mut results = run_jobs(&tab, |e| run_layout(e, &pd, prop, tier));
+    // thorough tier, C05: every one of the 2^32 f32 bit patterns into a fixed list of layouts
+    let mut swept = vec![];
+    if prop == Prop::C05 && tier == Tier::Thorough && !args.has("no-exhaustive") {
+        let jobs: Vec<(usize, u32)> = tab.iter().enumerate().filter(|(_, e)| F32_SWEEP.contains(&e.l.name().as_str())).flat_map(|(i, _)| (0..256u32).map(move |p| (i, p))).collect();
+        swept = tab.iter().filter(|e| F32_SWEEP.contains(&e.l.name().as_str())).map(|e| e.l.name()).collect();
+        results.extend(run_jobs(&jobs, |(i, part)| f32_sweep(&tab[*i], *part)));
+    }
     let mut rep = Report::new(crate::NAME, &args.get("prop").unwrap(), tier.name());
+    if !swept.is_empty() {
+        rep.complete_subspaces.push(format!("every one of the 2^32 f32 bit patterns converted (checked, saturating, overflowing) into each of {}", swept.join(", ")));
+    }
     let mut returned = vec![];
     for r in results {
         for (k, d) in r.dig {
